@@ -358,6 +358,12 @@ def run_random(ctx, rdp, case):
                 pass
         return
     iarg = idx.tolist() if case['as_list'] else idx
+    if not case['as_list'] and len(idx):
+        # position arrays of any integer dtype (small unsigned/signed ones overflow if the running count is not promoted)
+        dt = ['int64', 'int32', 'int16', 'uint8', 'uint16', 'int8'][(len(idx) + n) % 6]
+        if int(idx.max()) <= np.iinfo(dt).max:
+            iarg = idx.astype(dt)
+            ctx.h('position_dtype', dt)
     call_mapping(ctx, rdp, iarg, red, removed)
     perm = np.asarray(case['perm'], dtype=int)
     call_mapping(ctx, rdp, iarg, red, removed[perm], False)
@@ -449,6 +455,9 @@ def run_curve(ctx, mods, case):
 
         # mapping on the pair the simplifier returned
         idx = position_list(prng, k, g['mode']).astype(int)
+        dt = ['int64', 'uint8', 'int16', 'int32'][(k + n) % 4]
+        if len(idx) and int(idx.max()) <= np.iinfo(dt).max:
+            idx = idx.astype(dt)
         call_mapping(ctx, rdp, idx, reduced, removed)
         rows = len(np.asarray(removed))
         perm = prng.permutation(rows)
